@@ -8,6 +8,10 @@
 (*  (2) SpecArray.dd.  DDMEMO = TRUE: memoised on first use (before the repair); FALSE: recomputed.        *)
 (*  (3) the global attribute table inserts a key on lookup (attributes.py AttrDict.__getitem__).           *)
 (*  (4) the watershed's static work area (mk, mth): partinit() rebuilds it iff the shape differs.          *)
+(*  (5) the VALUES of the attribute table: every reader / partition / fit / oned call stamps its result    *)
+(*      with the table's entry for efth.  ATTRTAB = "copy": the result gets a copy (xarray's attrs setter  *)
+(*      copies; the tree), so a reader of one-dimensional files that rewrites the units edits its own copy; *)
+(*      "live": the reader edits the entry it was handed, i.e. the process-wide table itself.               *)
 (* Actions: Access, SetEfth(v), SetDir(g), Call(op) on the Dataset (ds) and the DataArray (da) accessor,   *)
 (* LookupUnknownAttr, PartitionCall(shape).  Fresh: every observation equals what a freshly constructed    *)
 (* object with the same contents gives, i.e. this module refines Session.tla's Apply.  With the            *)
@@ -15,19 +19,20 @@
 (* whose expected result is the counterexample).                                                          *)
 EXTENDS Integers, Sequences, FiniteSets, TLC
 
-CONSTANTS BINDING, DDMEMO, NVER, NGRID, MAXSTEPS
+CONSTANTS BINDING, DDMEMO, NVER, NGRID, MAXSTEPS, ATTRTAB
 
 VARIABLES dsEfth, dsGrid,      \* current contents of the dataset: efth version, direction grid
           dsAcc,               \* Dataset accessor: <<>> (not created) or [efth, grid] it bound its methods to
           daGrid, daAcc,       \* DataArray: current grid; accessor: <<>> or [dd |-> memoised grid or 0]
           attrKeys,            \* keys present in the global attribute table beyond the YAML ones
+          tabUnits,            \* the table's units entry for efth: "2d" (as loaded from the YAML file) or "1d"
           mk,                  \* shape the watershed's static work area is built for (0 = none)
           obs, exp,            \* last observation and what a fresh object would give
           steps
-vars == <<dsEfth, dsGrid, dsAcc, daGrid, daAcc, attrKeys, mk, obs, exp, steps>>
+vars == <<dsEfth, dsGrid, dsAcc, daGrid, daAcc, attrKeys, tabUnits, mk, obs, exp, steps>>
 
 Init == /\ dsEfth = 1 /\ dsGrid = 1 /\ dsAcc = <<>> /\ daGrid = 1 /\ daAcc = <<>>
-        /\ attrKeys = {} /\ mk = 0 /\ obs = <<>> /\ exp = <<>> /\ steps = 0
+        /\ attrKeys = {} /\ tabUnits = "2d" /\ mk = 0 /\ obs = <<>> /\ exp = <<>> /\ steps = 0
 
 Tick == steps < MAXSTEPS /\ steps' = steps + 1
 
@@ -37,30 +42,42 @@ CallDs == /\ Tick
           /\ dsAcc' = BindDs
           /\ obs' = IF BINDING = "snapshot" THEN <<"ds", BindDs.efth, BindDs.grid>> ELSE <<"ds", dsEfth, dsGrid>>
           /\ exp' = <<"ds", dsEfth, dsGrid>>
-          /\ UNCHANGED <<dsEfth, dsGrid, daGrid, daAcc, attrKeys, mk>>
+          /\ UNCHANGED <<dsEfth, dsGrid, daGrid, daAcc, attrKeys, tabUnits, mk>>
 SetEfth == /\ Tick /\ \E v \in (1..NVER) \ {dsEfth} : dsEfth' = v
-           /\ UNCHANGED <<dsGrid, dsAcc, daGrid, daAcc, attrKeys, mk, obs, exp>>     \* xarray keeps the cached accessor
+           /\ UNCHANGED <<dsGrid, dsAcc, daGrid, daAcc, attrKeys, tabUnits, mk, obs, exp>>     \* xarray keeps the cached accessor
 SetDsDir == /\ Tick /\ \E g \in (1..NGRID) \ {dsGrid} : dsGrid' = g
-            /\ UNCHANGED <<dsEfth, dsAcc, daGrid, daAcc, attrKeys, mk, obs, exp>>
+            /\ UNCHANGED <<dsEfth, dsAcc, daGrid, daAcc, attrKeys, tabUnits, mk, obs, exp>>
 \* ---- DataArray accessor: values follow the object, the memoised width does not
 CallDa == /\ Tick
           /\ LET memo == IF daAcc = <<>> \/ ~DDMEMO THEN daGrid ELSE daAcc.dd IN
              /\ daAcc' = [dd |-> memo]
              /\ obs' = <<"da", daGrid, memo>>          \* labels of the current grid, width of the memoised one
              /\ exp' = <<"da", daGrid, daGrid>>
-          /\ UNCHANGED <<dsEfth, dsGrid, dsAcc, daGrid, attrKeys, mk>>
+          /\ UNCHANGED <<dsEfth, dsGrid, dsAcc, daGrid, attrKeys, tabUnits, mk>>
 SetDaDir == /\ Tick /\ \E g \in (1..NGRID) \ {daGrid} : daGrid' = g
-            /\ UNCHANGED <<dsEfth, dsGrid, dsAcc, daAcc, attrKeys, mk, obs, exp>>
+            /\ UNCHANGED <<dsEfth, dsGrid, dsAcc, daAcc, attrKeys, tabUnits, mk, obs, exp>>
 \* ---- attribute table and static work area
 LookupUnknownAttr == /\ Tick /\ attrKeys' = attrKeys \cup {"x"}
-                     /\ UNCHANGED <<dsEfth, dsGrid, dsAcc, daGrid, daAcc, mk, obs, exp>>
+                     /\ UNCHANGED <<dsEfth, dsGrid, dsAcc, daGrid, daAcc, tabUnits, mk, obs, exp>>
+\* a reader call on some file: directional files are stamped with the table entry as it is now; non-directional files get
+\* units "1d" on what they return - written on a copy, or (ATTRTAB = "live") on the table entry itself
+ReaderCall(kind) == /\ Tick
+                    /\ obs' = <<"read", kind, IF kind = "1d" THEN "1d" ELSE tabUnits>>
+                    /\ exp' = <<"read", kind, kind>>
+                    /\ tabUnits' = IF ATTRTAB = "live" /\ kind = "1d" THEN "1d" ELSE tabUnits
+                    /\ UNCHANGED <<dsEfth, dsGrid, dsAcc, daGrid, daAcc, attrKeys, mk>>
+\* any call whose result is stamped from the table (oned, ptm*, fit_*, construct, converters): the metadata observed
+StampCall == /\ Tick
+             /\ obs' = <<"meta", tabUnits>> /\ exp' = <<"meta", "2d">>
+             /\ UNCHANGED <<dsEfth, dsGrid, dsAcc, daGrid, daAcc, attrKeys, tabUnits, mk>>
 PartitionCall(shape) == /\ Tick
                         /\ mk' = shape                       \* partinit: rebuilt iff shape # mk, then mk = shape
                         /\ obs' = <<"ws", shape, IF mk = shape THEN mk ELSE shape>>   \* the table the flood runs with
                         /\ exp' = <<"ws", shape, shape>>
-                        /\ UNCHANGED <<dsEfth, dsGrid, dsAcc, daGrid, daAcc, attrKeys>>
+                        /\ UNCHANGED <<dsEfth, dsGrid, dsAcc, daGrid, daAcc, attrKeys, tabUnits>>
 
 Next == CallDs \/ SetEfth \/ SetDsDir \/ CallDa \/ SetDaDir \/ LookupUnknownAttr \/ (\E s \in {1, 2} : PartitionCall(s))
+        \/ (\E k \in {"1d", "2d"} : ReaderCall(k)) \/ StampCall
 Spec == Init /\ [][Next]_vars
 
 Fresh == obs = exp
